@@ -366,6 +366,21 @@ struct FnEmitter {
         for (const Stmt *Ch : S->children()) scanTry(Ch, curTry, curCatch);
     }
 
+    // does the (sugared) type come from a template type parameter, i.e. is it a type the library's user supplies?
+    // (in an instantiation such types are SubstTemplateTypeParmType sugar; pointers/references to them count as well)
+    bool isTP(QualType T, bool throughPointers = false) {
+        for (int guard = 0; guard < 32 && !T.isNull(); ++guard) {
+            const Type *P = T.getTypePtr();
+            if (isa<SubstTemplateTypeParmType>(P)) return true;
+            if (auto *R = dyn_cast<ReferenceType>(P)) { T = R->getPointeeTypeAsWritten(); continue; }
+            if (auto *PT = dyn_cast<PointerType>(P)) { if (!throughPointers) return false; T = PT->getPointeeType(); continue; }
+            QualType D = T.getSingleStepDesugaredType(*C.AC);
+            if (D == T) break;
+            T = D;
+        }
+        return false;
+    }
+
     std::string intInfo(QualType T) {
         if (T.isNull()) return "null";
         T = T.getCanonicalType();
@@ -468,6 +483,7 @@ struct FnEmitter {
                     o += ",\"fx\":" + std::to_string(child(MC->getCallee()));
                 }
                 o += ",\"obj\":" + std::to_string(child(MC->getImplicitObjectArgument()));
+                if (MC->getImplicitObjectArgument() && isTP(MC->getImplicitObjectArgument()->IgnoreParenImpCasts()->getType(), true)) o += ",\"tp\":1";
                 std::vector<const Expr *> as(MC->arg_begin(), MC->arg_end());
                 o += ",\"a\":" + kids(as);
             } else if (auto *OC = dyn_cast<CXXOperatorCallExpr>(E)) {
@@ -478,6 +494,7 @@ struct FnEmitter {
                 else o += ",\"fx\":" + std::to_string(child(OC->getCallee()));
                 o += ",\"op\":" + jstr(getOperatorSpelling(OC->getOperator()));
                 std::vector<const Expr *> as(OC->arg_begin(), OC->arg_end());
+                for (auto *a : as) if (isTP(a->IgnoreParenImpCasts()->getType())) { o += ",\"tp\":1"; break; }
                 if (member && !as.empty()) {
                     o += ",\"obj\":" + std::to_string(child(as[0]));
                     as.erase(as.begin());
@@ -494,6 +511,7 @@ struct FnEmitter {
                 o += ",\"a\":" + kids(as);
             } else if (auto *CC = dyn_cast<CXXConstructExpr>(E)) {
                 o += ",\"k\":\"ctor\",\"fn\":" + calleeJson(CC->getConstructor());
+                if (isTP(CC->getType())) o += ",\"tp\":1";
                 if (auto *RD = CC->getConstructor()->getParent()) o += ",\"cls\":" + jstr(C.pname(RD));
                 if (CC->isElidable()) o += ",\"elide\":1";
                 std::vector<const Expr *> as(CC->arg_begin(), CC->arg_end());
@@ -502,6 +520,7 @@ struct FnEmitter {
                 o += ",\"k\":\"new\"";
                 if (NE->getOperatorNew()) o += ",\"fn\":" + calleeJson(NE->getOperatorNew());
                 o += ",\"ty\":" + jstr(C.tyStr(NE->getAllocatedType()));
+                if (isTP(NE->getAllocatedType())) o += ",\"tp\":1";
                 if (auto *RD = NE->getAllocatedType()->getAsCXXRecordDecl()) o += ",\"cls\":" + jstr(C.pname(RD));
                 std::vector<const Expr *> as(NE->placement_arg_begin(), NE->placement_arg_end());
                 o += ",\"pl\":" + kids(as);
@@ -545,9 +564,11 @@ struct FnEmitter {
             } else if (isa<CXXThisExpr>(E)) {
                 o += ",\"k\":\"this\"";
             } else if (auto *UO = dyn_cast<UnaryOperator>(E)) {
+                if (isTP(UO->getSubExpr()->IgnoreParenImpCasts()->getType())) o += ",\"tp\":1";
                 o += ",\"k\":\"unop\",\"op\":" + jstr(UnaryOperator::getOpcodeStr(UO->getOpcode())) +
                      (UO->isPostfix() ? ",\"post\":1" : "") + ",\"sub\":" + std::to_string(child(UO->getSubExpr()));
             } else if (auto *BO = dyn_cast<BinaryOperator>(E)) {
+                if (isTP(BO->getLHS()->IgnoreParenImpCasts()->getType()) || isTP(BO->getRHS()->IgnoreParenImpCasts()->getType())) o += ",\"tp\":1";
                 o += ",\"k\":\"binop\",\"op\":" + jstr(BO->getOpcodeStr()) + ",\"l\":" + std::to_string(child(BO->getLHS())) +
                      ",\"r\":" + std::to_string(child(BO->getRHS()));
                 // comparisons: the (common) operand type after the usual arithmetic conversions -- K14 needs the signedness
